@@ -44,7 +44,6 @@ var transparentPrefix = []string{
 	"(net/url.Values).Has", "(*net/http.Request).Context", "(*net/http.Request).UserAgent", "(*net/http.Request).Referer",
 	"net/http.StatusText", "(net/http.HandlerFunc).ServeHTTP", "(*net/url.URL).IsAbs", "(*net/url.URL).Query",
 	"(*sync.Once).Do", "(*sync.Once).doSlow", "(*sync/atomic.Uint32).Load", "(*sync/atomic.Uint32).Store",
-	"(*net/http.Request).FormValue", "(*net/http.Request).PostFormValue",
 	"net/http.NewRequest", "(*net/http.Request).WithContext",
 	"errors.Is", "errors.is",
 }
